@@ -589,6 +589,14 @@ def kge(obs, sim, trans=transform.Identity(), excludenull=False):
         raise ValueError("KGE - Expected sim with dim equal " +
                          f"to {obs.shape[0]}, got {sim.shape[0]}.")
 
+    # [n,1] columns are processed as [n] series
+    # (np.corrcoef reads the rows of a 2d array as variables)
+    if obs.ndim == 2 and obs.shape[1] == 1:
+        obs = obs[:, 0]
+
+    if sim.ndim == 2 and sim.shape[1] == 1:
+        sim = sim[:, 0]
+
     # Transform
     tobs = trans.forward(obs)
     tsim = trans.forward(sim)
